@@ -167,6 +167,35 @@ def per_chunk_policy(content, encoding, mode, sym_payloads):
     return True
 
 
+def per_chunk_mode_conflict(case):
+    """Classification aid for the recorded chunking finding (the same mechanism seen as a refusal): the mode is taken
+    from the whole content, the text is cut by characters and every chunk is converted to bytes on its own - is there a
+    chunk whose own bytes are not representable in the mode of the whole? (Then the pinned implementation has to refuse.)"""
+    content, kw = case['content'], case['kw']
+    if not isinstance(content, str) or not kw.get('symbol_count'):
+        return None
+    try:
+        a = oracle.normalize_args(dict(kw, content=content))
+        whole = oracle.spec_parts(content, a.get('mode'), a.get('encoding'))[0]
+    except Exception:  # noqa: BLE001
+        return None
+    n = kw['symbol_count']
+    k, m = divmod(len(content), n)
+    chunks = [content[i * k + min(i, m):(i + 1) * k + min(i + 1, m)] for i in range(n)]
+    encs = ['gb2312'] if whole['mode'] == 'hanzi' else ([kw['encoding']] if kw.get('encoding') else ['iso-8859-1', 'shift_jis', 'utf-8'])
+    for ch in chunks:
+        data = None
+        for e in encs:
+            try:
+                data = ch.encode(e)
+                break
+            except (UnicodeError, LookupError):
+                continue
+        if data is None or not oracle.representable(whole['mode'], data):
+            return True
+    return False
+
+
 def check_sequence(case, seq, rec):
     """The offline checker over one returned sequence. Returns a list of symptoms."""
     kw = case['kw']
@@ -279,7 +308,8 @@ def run_cases(cases, rec, tier='quick', seed='0'):
         except ValueError as ex:
             rec.count('refused:%s' % type(ex).__name__)
             if str(case.get('tag', '')).startswith('must-accept'):
-                rec.deviation('C08', 'admissible-sequence-refused', {'type': type(ex).__name__, 'message': str(ex)[:200]})
+                rec.deviation('C08', 'admissible-sequence-refused', {'type': type(ex).__name__, 'message': str(ex)[:200],
+                                                                     'per_chunk_mode_conflict': per_chunk_mode_conflict(case)})
             continue
         except Exception as ex:  # noqa: BLE001
             rec.count('refused:%s' % type(ex).__name__)
